@@ -1,11 +1,13 @@
 // C07: util::Buffer against a std::deque<uint8_t> reference, BFS over op histories (engine H).
 // argv: <initial capacity> <depth> <max live bytes>
 #include "hist/hist.h"
+#include "probe.h"
 #include <tbox/util/buffer.h>
 #include <cstdint>
 #include <deque>
 #include <memory>
 using tbox::util::Buffer;
+VF_PROBE(buffer_size_) VF_PROBE(read_index_) VF_PROBE(write_index_) VF_PROBE(buffer_ptr_)   // private fields feed the state key only
 
 struct Op { int k, a; };
 static const char *kNames[] = {"appX","appY","rsvX","rsv1X","fetchX","readX","readAllX","shrinkX","X=Y","X=mvY","swap","resetX",
@@ -72,9 +74,9 @@ int main(int argc, char **argv) {
           if (r > 0 && X.writableBegin() == nullptr) { viol = "writableBegin-null"; break; }
           for (size_t i = 0; i < n; i++) { uint8_t c = next(); X.writableBegin()[i] = c; mx.push_back(c); } X.hasWritten(n); } break;
         case RSVHUGE: { static const size_t REQ[3] = {(size_t)-1, (size_t)-2, ((size_t)-1 >> 1) + 1};
-          size_t cap0 = X.buffer_size_, w0 = X.writableSize();
+          size_t r0 = X.readableSize(), w0 = X.writableSize();
           if (X.ensureWritableSize(REQ[o.a])) { viol = "reserve-of-unrepresentable-size-reported-as-satisfied"; break; }
-          if (X.buffer_size_ != cap0 || X.writableSize() != w0) { viol = "refused-reserve-changed-the-buffer"; break; } } break;
+          if (X.readableSize() != r0 || X.writableSize() != w0) { viol = "refused-reserve-changed-the-buffer"; break; } } break;
         case RSVONLY: { if (!X.ensureWritableSize((size_t)o.a)) { viol = "ensure-false"; break; } if (X.writableSize() < (size_t)o.a) { viol = "ensure-too-small"; break; } } break;
         case OVERW: { size_t w = X.writableSize(); if (mx.size() + w > maxlive) break;       // over-long commit: clamped to what is writable
           for (size_t i = 0; i < w; i++) { uint8_t c = next(); X.writableBegin()[i] = c; mx.push_back(c); }
@@ -107,11 +109,19 @@ int main(int argc, char **argv) {
       if (!viol.empty()) break;
       chk(X, mx, "X"); if (!viol.empty()) break;
       chk(Y, my, "Y"); if (!viol.empty()) break;
-      if (X.write_index_ > X.buffer_size_ || X.read_index_ > X.write_index_ || Y.write_index_ > Y.buffer_size_ || Y.read_index_ > Y.write_index_) { viol = "index-invariant"; break; }
+      // index invariant through the public API only: a wrapped writableSize()/readableSize() is what write_index_ > buffer_size_ / read_index_ > write_index_ look like
+      if (X.writableSize() > ((size_t)1 << 40) || Y.writableSize() > ((size_t)1 << 40) || X.readableSize() > ((size_t)1 << 40) || Y.readableSize() > ((size_t)1 << 40)) { viol = "index-invariant"; break; }
     }
     (void)wx; (void)rx; (void)wy; (void)ry;
-    char c[160]; snprintf(c, sizeof c, "%zu,%zu,%zu,%d|%zu,%zu,%zu,%d", X.buffer_size_, X.read_index_, X.write_index_, X.buffer_ptr_ != nullptr, Y.buffer_size_, Y.read_index_, Y.write_index_, Y.buffer_ptr_ != nullptr);
-    return std::string(c);
+    // key: the private geometry if the fields still exist under these names (probe.h), plus what the public API shows; when a field is missing
+    // the last three ops are appended so that states the key can no longer tell apart are not merged
+    char c[260]; const uint8_t *np = nullptr;
+    snprintf(c, sizeof c, "%zu,%zu,%zu,%d,%zu,%zu|%zu,%zu,%zu,%d,%zu,%zu", VF_GET(buffer_size_, X, (size_t)0), VF_GET(read_index_, X, (size_t)0), VF_GET(write_index_, X, (size_t)0),
+             VF_GET(buffer_ptr_, X, np) != nullptr, X.readableSize(), X.writableSize(),
+             VF_GET(buffer_size_, Y, (size_t)0), VF_GET(read_index_, Y, (size_t)0), VF_GET(write_index_, Y, (size_t)0), VF_GET(buffer_ptr_, Y, np) != nullptr, Y.readableSize(), Y.writableSize());
+    std::string key(c);
+    if (vf_any_missing()) for (size_t i = h.size() >= 3 ? h.size() - 3 : 0; i < h.size(); i++) { char b[32]; snprintf(b, sizeof b, "/%d:%d", h[i].k, h[i].a); key += b; }
+    return key;
   };
   ex.explore(depth);
   return 0;
